@@ -383,29 +383,60 @@ func (pm *PoolManager) restoreLocked(mapping *models.CGNATMapping, ifAbsent bool
 	portStart := ps.Config.GetPortRangeStart()
 
 	key := makeSubscriberKey(mapping.InsideVRFID, mapping.InsideIP)
-	if ifAbsent {
-		if sub, ok := ps.Subscribers[key]; ok {
-			for _, b := range sub.Blocks {
-				if b.PortBlockStart == mapping.PortBlockStart && b.OutsideIP.Equal(mapping.OutsideIP) {
-					return nil
-				}
-			}
-		}
-	}
 
+	var target *outsideAddressState
 	for _, addr := range ps.OutsideAddresses {
 		if addr.IP.Equal(mapping.OutsideIP) {
-			blockIdx := int(mapping.PortBlockStart-portStart) / int(blockSize)
-			word := blockIdx / 64
-			bit := uint(blockIdx % 64)
-			if word < len(addr.AllocatedBits) {
-				addr.AllocatedBits[word] |= 1 << bit
-			}
+			target = addr
 			break
 		}
 	}
+	if target == nil || target.Excluded {
+		return fmt.Errorf("pool %s: restore %s:%d-%d: outside address is not usable in this pool",
+			mapping.PoolName, mapping.OutsideIP, mapping.PortBlockStart, mapping.PortBlockEnd)
+	}
+	if blockSize == 0 || mapping.PortBlockStart < portStart ||
+		(mapping.PortBlockStart-portStart)%blockSize != 0 ||
+		uint32(mapping.PortBlockStart-portStart)/uint32(blockSize) >= target.TotalBlocks ||
+		uint32(mapping.PortBlockEnd) != uint32(mapping.PortBlockStart)+uint32(blockSize)-1 {
+		return fmt.Errorf("pool %s: restore %s:%d-%d: not a port block of this pool",
+			mapping.PoolName, mapping.OutsideIP, mapping.PortBlockStart, mapping.PortBlockEnd)
+	}
+
+	blockIdx := int(mapping.PortBlockStart-portStart) / int(blockSize)
+	word := blockIdx / 64
+	bit := uint(blockIdx % 64)
 
 	sub, ok := ps.Subscribers[key]
+	held := false
+	if ok {
+		for _, b := range sub.Blocks {
+			if b.PortBlockStart == mapping.PortBlockStart && b.OutsideIP.Equal(mapping.OutsideIP) {
+				held = true
+				break
+			}
+		}
+	}
+	if held && ifAbsent {
+		return nil
+	}
+	if !held && target.AllocatedBits[word]&(1<<bit) != 0 {
+		return fmt.Errorf("pool %s: restore %s:%d-%d: block is allocated to another subscriber",
+			mapping.PoolName, mapping.OutsideIP, mapping.PortBlockStart, mapping.PortBlockEnd)
+	}
+	if ok && len(sub.Blocks) >= int(ps.Config.GetMaxBlocksPerSubscriber()) {
+		return fmt.Errorf("pool %s: restore %s:%d-%d: subscriber %s vrf %d already holds max blocks",
+			mapping.PoolName, mapping.OutsideIP, mapping.PortBlockStart, mapping.PortBlockEnd,
+			mapping.InsideIP, mapping.InsideVRFID)
+	}
+	if ok && len(sub.Blocks) > 0 && ps.Config.GetAddressPooling() == "paired" &&
+		!sub.Blocks[0].OutsideIP.Equal(mapping.OutsideIP) {
+		return fmt.Errorf("pool %s: restore %s:%d-%d: paired subscriber %s vrf %d is bound to %s",
+			mapping.PoolName, mapping.OutsideIP, mapping.PortBlockStart, mapping.PortBlockEnd,
+			mapping.InsideIP, mapping.InsideVRFID, sub.Blocks[0].OutsideIP)
+	}
+	target.AllocatedBits[word] |= 1 << bit
+
 	if !ok {
 		sub = &subscriberAllocation{
 			PoolName:  mapping.PoolName,
